@@ -95,7 +95,9 @@ Definition thr (o : op) : tid :=
   match o with Set_ t _ _ | Enter t _ _ | Exit_ t _ | Query t | Dispatch t => t end.
 
 Inductive obs :=
-| ODone                  (* completed (an exceptional exit re-raises the body's exception) *)
+| ODone                  (* completed *)
+| OReraised              (* a context was left by an exception of its body: the finally clause has run and the
+                            exception propagates out of the `with` statement *)
 | ORejected              (* set_backend / backend_context raised before doing anything *)
 | OExitFailed            (* the finally-clause of backend_context raised (pinned tenalg manager only) *)
 | ONoCtx                 (* Exit without an open context: not an operation of the implementation *)
@@ -113,14 +115,17 @@ Definition step (R : rules) (c : cfg) (s : st) (o : op) : st * obs :=
       | Some s' => (with_ctx s' t ((old, l) :: ctx s' t), ODone)
       | None => (s, ORejected)
       end
-  | Exit_ t _ =>
-      (* finally: cls.set_backend(_old_backend, local_threadsafe=local_threadsafe) *)
+  | Exit_ t e =>
+      (* try: yield / finally: cls.set_backend(_old_backend, local_threadsafe=local_threadsafe).  There is no except
+         clause: a normal exit (e = false) and an exit by an exception of the body (e = true) run the SAME restore;
+         they differ in what the `with` statement does afterwards (continues / lets the exception propagate).  If
+         the restore itself raises, that exception replaces the body's *)
       match ctx s t with
       | [] => (s, ONoCtx)
       | (old, l) :: k =>
           let s1 := with_ctx s t k in
           match set_backend R c s1 t (SInst old) (if keep_flag R then l else false) with
-          | Some s' => (s', ODone)
+          | Some s' => (s', if e then OReraised else ODone)
           | None => (s1, OExitFailed)
           end
       end
@@ -362,11 +367,11 @@ Definition compile (R : rules) (c : cfg) (p : priv) (o : op) : prog :=
                   | None => [(AEmit ORejected, true)]
                   | Some b => writes (Const b) l ++ [(APush l, false); (AEmit ODone, false)]
                   end
-  | Exit_ _ _ => match p_ctx p with
+  | Exit_ _ e => match p_ctx p with
                  | [] => [(AEmit ONoCtx, true)]
                  | (old, l) :: _ =>
                      if isinst R old
-                     then (APop, false) :: writes FromReg (if keep_flag R then l else false) ++ [(AEmit ODone, false)]
+                     then (APop, false) :: writes FromReg (if keep_flag R then l else false) ++ [(AEmit (if e then OReraised else ODone), false)]
                      else [(APop, true); (AEmit OExitFailed, false)]
                  end
   | Query _ => [(AQuery, true)]
